@@ -538,6 +538,65 @@ def walk_all(ctx, f):
                "from GetManagedObjects / the manager's InterfacesAdded burst", pcall.where)
 
 
+def node_path_rule(ctx, f):
+    """NODE-PATH (added after seeded change C25b): `Node::path` is what `InterfacesAdded` is sent for and what
+    `GetManagedObjects` lists the node under, so a node created implicitly at depth k of the descent must record
+    the path of *its own* level -- the accumulator that grows by one component per loop iteration -- and not any
+    other value (the seed passed the full target path to every created node)."""
+    g = ctx.one(f.find(name="get_child_mut", adt=NODE, trait=""), "Node::get_child_mut")
+    news = [c for c in mir.calls(g) if c.callee == NODE + "::new" or c.declared == NODE + "::new"]
+    # Node::new inside a closure of get_child_mut (`or_insert_with(|| Node::new(..))`): the closure's captures stand
+    # for the argument
+    closure_news = []
+    for k in f.children.get(g.id, []):
+        if k.id != g.id and [c for c in mir.calls(k) if c.callee == NODE + "::new" or c.declared == NODE + "::new"]:
+            for b_, i_, pl_, rv_, ln_ in mir.assignments(g):
+                if rv_[0] == "agg" and rv_[1] == "closure" and rv_[2] == k.id:
+                    closure_news.append((k, rv_, ln_))
+    ctx.floor("NODE-PATH", "Node::new sites in get_child_mut", len(news) + len(closure_news), 1)
+    # loop items: results of Iterator::next in a cycle
+    succ = mir.succs(g)
+    in_cycle = {b for b in range(len(g.blocks)) if b in mir.reachable(g, list(succ[b]))}
+    items = set()
+    for c in mir.calls(g):
+        if c.is_("next") and "Iterator" in (c.callee + c.declared) and c.b in in_cycle:
+            items |= mir.derives(g, {c.dest[0]}, through_calls=True)
+    ctx.need(sorted(items), "component iterator of get_child_mut", "NODE-PATH")
+    # accumulators: locals mutably borrowed into a call inside the loop together with a value derived from the item
+    accs = set()
+    for c in mir.calls(g):
+        if c.b not in in_cycle or not c.args:
+            continue
+        muts = []
+        for a in c.args:
+            o = mir.origin(g, a)
+            if o[0] == "ref":
+                # origin() does not carry the borrow kind: look the defining statement up
+                l = mir.op_local(a)
+                d = mir.single_def(g, l) if l is not None else None
+                if d and d[0] == "assign" and d[4][0] == "ref" and d[4][1] == "mut":
+                    muts.append(o[1][0])
+        others = [l for a in c.args for l in mir.operand_locals(a)]
+        if muts and any(l in items for l in others):
+            accs |= set(muts)
+    ctx.ob("NODE-PATH", "per-level-accumulator-exists", bool(accs),
+           "a local is extended by the current component in every iteration (%d candidate(s))" % len(accs) if accs else
+           "no local of get_child_mut is extended by the current path component inside the loop: created nodes cannot "
+           "record the path of their own level", g.where)
+    der = mir.derives(g, accs, through_calls=True) if accs else set()
+    for k, rv_, ln_ in closure_news:
+        ok = bool(accs) and any(l in der for op in rv_[4] for l in mir.operand_locals(op))
+        ctx.ob("NODE-PATH", "created-node-gets-accumulated-path", ok,
+               "the closure that calls Node::new captures the per-level accumulator" if ok else
+               "the closure that calls Node::new does not capture the per-level accumulator", "%s:%s" % (g.file, ln_))
+    for c in news:
+        ok = bool(accs) and any(l in der for a in c.args for l in mir.operand_locals(a))
+        ctx.ob("NODE-PATH", "created-node-gets-accumulated-path", ok,
+               "the path handed to Node::new derives from the per-level accumulator" if ok else
+               "the path handed to Node::new does not derive from the per-level accumulator: an implicitly created "
+               "intermediate node records a path that is not its own (signals and GetManagedObjects then disagree)", c.where)
+
+
 def run(ctx):
     ctx.explanation = (
         "Static rules over MIR of zbus (K1): in ObjectServer::add_arc_interface and ::remove, reachability from the 'changed' edge "
@@ -553,3 +612,4 @@ def run(ctx):
     manager_path_rule(ctx, f)
     filter_sibling(ctx, f)
     walk_all(ctx, f)
+    node_path_rule(ctx, f)
